@@ -671,7 +671,8 @@ fn walk_space(cpu: &'static WalkCpu) -> Space {
                         continue;
                     }
                     let callee_val = cpu.callee.iter().find(|r| r.0 == n.as_str()).map(|r| r.1);
-                    let forwarded = cpu.callee_saved.contains(&n.as_str()) && got.is_some() && got == callee_val;
+                    let valid_in_callee = valid_names.as_ref().map_or(true, |v| v.contains(&n.as_str()));
+                    let forwarded = cpu.callee_saved.contains(&n.as_str()) && valid_in_callee && got.is_some() && got == callee_val;
                     let (kind, why) = match want {
                         Ok(_) => ("expected-set", String::new()),
                         Err(Unknown::RuleFails) => ("expected-unknown", " (its rule fails)".to_string()),
